@@ -36,6 +36,13 @@ extern "C" void harness(void)
 #ifdef KF_EXCLUDE
   KF_EXCLUDE
 #endif
+  // AFINMASK / BFINMASK: states whose finality is free; the others are final iff their bit in AFINFIX / BFINFIX is set
+#ifdef AFINMASK
+  for (unsigned s = 0; s < NA; ++s) if (!(((AFINMASK) >> s) & 1)) vs_assume(A.fin[s] == ((((AFINFIX) >> s) & 1) != 0));
+#endif
+#ifdef BFINMASK
+  for (unsigned s = 0; s < NB; ++s) if (!(((BFINMASK) >> s) & 1)) vs_assume(B.fin[s] == ((((BFINFIX) >> s) & 1) != 0));
+#endif
   ExplicitTreeAut a, b; A.build(a); B.build(b);
   const bool sim = SEL & 1; const unsigned alg = SEL >> 1;
 #ifndef DIRECT
